@@ -74,6 +74,13 @@ Theorem C08_first_deviation : forall ops k i fl,
 Proof. exact no_impossible_failure. Qed.
 Print Assumptions C08_first_deviation.
 
+(* when no expectation names an object (the fragment of the first version of this check) the object diagnoses are unreachable too *)
+Theorem C08_first_deviation_no_object : forall ops k i fl,
+  parse ops = Some k -> judged k = true -> (forall e, In e (k_exps k) -> sx_obj e = None) -> o_fail (run ops) = Some (i, fl) ->
+  (forall f, f_kind fl <> FObjectMissing f) /\ (forall f, f_kind fl <> FObjectUnexpected f).
+Proof. exact no_object_failure. Qed.
+Print Assumptions C08_first_deviation_no_object.
+
 (* within one actual call: between the items the candidates are exactly the open expectations agreeing with the items passed so
    far, their flags say which parameters / whether the object were passed, nothing is finalized (appendix A1), and finishing the call
    consumes the first open expectation that is exactly the call, returning its value and having filled every output buffer passed
